@@ -56,9 +56,15 @@ def header_of(spec, width, height):
 
     cd = cd_matrix(spec)
     h = fits.Header()
-    h["NAXIS"] = 2
-    h["NAXIS1"] = width
-    h["NAXIS2"] = height
+    # the size the WCS "remembers" (NAXISi): normally the image's own; optionally none at all, or another image's (a WCS
+    # taken over from a reference file or a parent frame)
+    nax = spec.get("naxis")
+    if nax == "none":
+        pass
+    else:
+        h["NAXIS"] = 2
+        h["NAXIS1"] = width if not nax else int(nax[0])
+        h["NAXIS2"] = height if not nax else int(nax[1])
     h["CTYPE1"] = "RA---" + spec["proj"]
     h["CTYPE2"] = "DEC--" + spec["proj"]
     h["CUNIT1"] = "deg"
